@@ -80,32 +80,7 @@ func runC40(c *Ctx) {
 	// running one, which then finalises its older target: the version goes down.
 	if fn := c.Fn("C40.R1", "p.(*DB).ratchetFormatMajorVersionLocked"); fn != nil {
 		flag := c.Field("C40.R1", "p.DB.mu.formatVers.ratcheting")
-		storesFlag := func(f *ssa.Function) bool { return len(instrs(f, StoreTo(flag))) > 0 }
-		touch := Pred("set / arrange to clear formatVers.ratcheting", func(in ssa.Instruction) bool {
-			switch x := in.(type) {
-			case *ssa.Store:
-				return fieldOfValue(x.Addr) == flag
-			case *ssa.Defer:
-				if mc, ok := x.Call.Value.(*ssa.MakeClosure); ok {
-					if cf, ok := mc.Fn.(*ssa.Function); ok {
-						return storesFlag(cf)
-					}
-				}
-				if cal := x.Call.StaticCallee(); cal != nil {
-					return storesFlag(cal)
-				}
-			}
-			return false
-		})
-		fl := NewFlow(c.P).Edge("flag-seen-clear", func(v ssa.Value) (bool, bool) {
-			if _, isBin := v.(*ssa.BinOp); isBin || fieldOfValue(v) != flag {
-				return false, false
-			}
-			return true, true // holds where the flag was false
-		})
-		res := fl.Analyze(fn, emptyState())
-		c.noteFlow(fl)
-		if n := c.Require("C40.R1", res, touch, "the in-progress flag is set, and its reset arranged, only by the call that saw it clear", []string{"flag-seen-clear"}); n < 2 {
+		if n := c.FlagOwnership("C40.R1", fn, flag, "the in-progress flag is set, and its reset arranged, only by the call that saw it clear"); n < 2 {
 			c.Unresolved("C40.R1", "store to formatVers.ratcheting and its (deferred) reset not found in ratchetFormatMajorVersionLocked")
 		}
 	}
